@@ -157,7 +157,7 @@ def unitary(name, classical, variant="A"):
     """Independent evaluation of a gate matrix; None for idle / unitary-less gates."""
     if name.startswith("I_") or name in ("prepare_all", "measure_all"):
         return None
-    fn = VARIANTS[variant][name][1]
+    fn = VARIANTS[variant.rstrip("d")][name][1]
     if fn is None:
         return None
     return np.asarray(fn(*classical), dtype=complex)
